@@ -252,9 +252,19 @@ func inBubble(f func()) (leaked bool) {
 			panic(r)
 		}
 	}()
+	var inner any
+	var innerStack []byte
 	synctest.Test(curT, func(t *testing.T) {
+		defer func() {
+			if r := recover(); r != nil {
+				inner, innerStack = r, debug.Stack()
+			}
+		}()
 		f()
 		completed = true
 	})
+	if inner != nil {
+		panic(fmt.Sprintf("%v\n%s", inner, innerStack))
+	}
 	return false
 }
